@@ -192,7 +192,9 @@ fn case_iter(seed: u64, idx: usize, suite: &str, cache: &TableCache, out: &mut S
     let _ = writeln!(out, "# {}", desc);
     // configuration only (modes, names, transitions); the automata are not needed for the table finder
     out.push_str("scanner\n");
-    for (m, mode) in dump.modes.iter().enumerate() {
+    // the configured transitions and names (not the compiled ones): the property speaks about the
+    // configuration
+    for (m, mode) in spec.iter().enumerate() {
         let _ = write!(out, "mode {}", m);
         for (t, to) in &mode.transitions {
             let _ = write!(out, " {} {}", t, to);
